@@ -172,6 +172,11 @@ static int run(const ZI* const* full, int nfull, int mk) {
   pool.push_back(TimeZone::forTimeOffset(TimeOffset::forMinutes(-420), TimeOffset::forMinutes(0)));
   pool.push_back(TimeZone::forTimeOffset(TimeOffset::forMinutes(-480), TimeOffset::forMinutes(60)));
   pool.push_back(TimeZone::forTimeOffset(TimeOffset::forMinutes(60), TimeOffset::forMinutes(-480)));
+  // the same standard offset with different DST shifts, and the same total offset split differently
+  pool.push_back(TimeZone::forTimeOffset(TimeOffset::forMinutes(-480), TimeOffset::forMinutes(0)));
+  pool.push_back(TimeZone::forTimeOffset(TimeOffset::forMinutes(-480), TimeOffset::forMinutes(120)));
+  pool.push_back(TimeZone::forTimeOffset(TimeOffset::forMinutes(0), TimeOffset::forMinutes(60)));
+  { TimeZone m = TimeZone::forTimeOffset(TimeOffset::forMinutes(-480), TimeOffset::forMinutes(0)); m.setDstOffset(TimeOffset::forMinutes(60)); pool.push_back(m); }
   for (int i : {0, 1, 7, nfull - 1}) {
     pool.push_back(TimeZone::forZoneInfo(full[i], &proc));
     pool.push_back(TimeZone::forZoneInfo(full[i], &p2));      // same zone, another processor
